@@ -491,7 +491,13 @@ def b_term(j):
     if k == "co":
         return tdl.Coreference(uncps(j["s"]), docstring=d)
     if k == "avm":
-        return tdl.AVM([(".".join(uncps(c) for c in p), b_val(v)) for p, v in j["f"]], docstring=d)
+        fv = [(".".join(uncps(c) for c in p), b_val(v)) for p, v in j["f"]]
+        # both documented argument forms: a sequence of pairs, or (when the paths are distinct and the
+        # choice, a function of the spec, falls that way) a mapping
+        names = [p.upper() for p, _ in fv]
+        if fv and len(set(names)) == len(names) and sum(len(p) for p in names) % 3 == 0:
+            return tdl.AVM(dict(fv), docstring=d)
+        return tdl.AVM(fv, docstring=d)
     if k == "cons":
         e = j["e"]
         end = tdl.EMPTY_LIST_TYPE if e == "closed" else tdl.LIST_TYPE if e == "open" else b_val(e)
@@ -758,15 +764,15 @@ def d_env_begin(env):
     return {"k": "begin", "inst": False, "status": None}
 
 
-def d_flat(objs):
+def d_flat(objs, ndoc=ndoc):
     out = []
     for o in objs:
         if isinstance(o, tdl._Environment):
             out.append(d_env_begin(o))
-            out.extend(d_flat(o.entries))
-            out.append({"k": "end", "inst": isinstance(o, tdl.InstanceEnvironment)})
+            out.extend(d_flat(o.entries, ndoc))
+            out.append({"k": "end", "inst": isinstance(o, tdl._Environment) and isinstance(o, tdl.InstanceEnvironment)})
         else:
-            out.append(d_obj(o))
+            out.append(d_obj(o, ndoc))
     return out
 
 
@@ -778,7 +784,7 @@ def d_events(events):
         elif ev == "EndEnvironment":
             out.append({"k": "end", "inst": isinstance(obj, tdl.InstanceEnvironment)})
         else:
-            out.append(d_obj(obj, rdoc))
+            out.append(d_obj(obj, s_doc))
     return out
 
 
@@ -795,7 +801,7 @@ def d_expand(o, ndoc=ndoc):
 def d_toks(text):
     out = []
     for gid, tok, _ in tdl._lex(io.StringIO(text)):
-        out.append([gid, cps(unindent(tok)) if gid == 1 else cps(tok)])
+        out.append([gid, cps(tok)])      # docstrings raw: the model knows the indentation of every place
     return out
 
 
@@ -1051,6 +1057,7 @@ def has_triv_conj(o):
 
 class C15(Check):
     pid = "C15"
+    props_modules = ["Verif.C15.Props", "Verif.C15.PropsText"]
     quick_cases = 700
     thorough_cases = 8000
     rule = ("flat item lists (type definitions, addenda, lexical rules with affix patterns, letter-sets, wild-cards, "
@@ -1058,7 +1065,9 @@ class C15(Check):
             "(quick) / 4 (thorough): conjunctions (also one-term Conjunction objects), AVMs with dotted paths of 1-4 "
             "names (shared prefixes merge), cons lists closed/open/dotted with 0-8 items and long identifiers so that "
             "inline and broken layouts occur, diff lists, coreferences, strings/regexes over escape-rich alphabets, "
-            "docstrings with quotes, quote runs, backslashes, blank lines and indentation; docstring/escape cases "
+            "docstrings with quotes, quote runs, backslashes, blank lines and indentation; AVMs built from pair lists and from "
+            "mappings; lists of 16, 65 and 200 items; every text also read without final newline, with CRLF line ends, "
+            "with blank lines around it and as a UTF-16 file (iterparse encoding option, Path argument); docstring/escape cases "
             "exhaustive over {\", \\, a, LF} up to length 5; mutated token streams for the parser's error branches; "
             "path set/get cases with random letter case; constructor histories (AVMs, ConsLists, Conjunctions and definition "
             "bodies built by __setitem__/__delitem__ with plain and dotted paths in varying letter case, re-setting deleted or "
@@ -1076,15 +1085,18 @@ class C15(Check):
         "String/Regex/comment texts are in the lexer's own source form (no raw '\"' in a String, no '|#' in a block "
         "comment): DESIGN C15 'Reading'",
         "comments inside definitions are not generated (the parser drops them by design)",
-        "the text layout (line breaks, indentation) is not modelled: the model is the token stream; text stability is "
-        "decided by the direct oracle on the real formatter",
+        "the text layout (line breaks, indentation, inline/broken lists against the 79-column width) IS modelled "
+        "(Text.lean: fmtFile) and compared character by character with tdl.format on every entity; the link from that "
+        "text to the token stream is the real lexer (compared, not proved); identifiers are non-empty (the width "
+        "computation of _format_conjunction raises ValueError on an empty term text)",
         "long files of more than 2048 tokens are oracle-only (not sent to the Lean model); the token buffer of "
         "util.LookaheadIterator is not modelled (the model parser works on a plain token list)",
         "the regex-based lexer is not modelled at character level except for docstrings/block comments (_bounded) and "
         "letter-set bodies; it is exercised for real on every formatted text",
     ]
     trusted_base = ["hand-written model lean/Verif/C15/Model.lean, tied to delphin.tdl/tfs by the correspondence run "
-                    "(tokens of the real lexer on the real formatter's text, parsed structure, second tokens, expanded "
+                    "(the formatter's text character by character, first and second; tokens of the real lexer on that "
+                    "text with raw docstrings, parsed structure with raw docstrings, second tokens, expanded "
                     "features, constructor results, docstring formatting/escaping/scanning, parser errors on mutated "
                     "token streams)"]
 
@@ -1269,6 +1281,25 @@ class C15(Check):
         for e in ("open", _C("r")):
             yield {"kind": "items", "items": [_td("t", [_I("s"), _avm([("L", _cons([_I(long_id), _I(long_id)], e)),
                                                                    ("M", _diff([_I(long_id)] * 2))])])]}
+        # the 79-column decision of _format_conslist / _format_difflist swept across its boundary: two and three
+        # items whose joint width runs through 79 +-3 at the indentation of `t := s & [ L <here> ]`, and one step
+        # further in (after `a & `, inside an environment) so that the running width of a conjunction counts too
+        for total in range(62, 72):
+            for mk in (lambda vs: _cons(vs, "closed"), lambda vs: _cons(vs, "open"), lambda vs: _cons(vs, _C("r")),
+                       _diff):
+                two = [_I("x" * 33), _I("y" * (total - 33))]
+                three = [_I("x" * 20), _I("y" * 20), _I("z" * (total - 42))]
+                yield {"kind": "items", "width": True, "items": [
+                    _td("t", [_I("s"), _avm([("L", mk(two)), ("M", _conj(_I("a"), mk(three)))])]),
+                    {"k": "begin", "inst": False, "status": None},
+                    _td("u", [_I("s"), _avm([("L", mk(three)), ("M.N", _conj(_I("a"), mk(two)))])], "d"),
+                    {"k": "end", "inst": False}]}
+        # long lists (boundary sizes beyond anything the inline/broken layout needs)
+        for nn in (16, 65, 200):
+            its = [_I("a%d" % (j_ % 7)) if j_ % 5 else _conj(_I("b"), _C("c%d" % j_)) for j_ in range(nn)]
+            yield {"kind": "items", "items": [_td("t", [_I("s"), _avm([("L", _cons(its, "closed")), ("M", _diff(its))])]),
+                                              _td("u", [_I("s"), _avm([("L", _cons(its, "open")),
+                                                                       ("N.O", _cons(its, _C("r")))])])]}
         # dotted lists whose end is "empty" in Python's sense
         for end in (_S(""), _cons([], "closed"), _diff([]), _cons([], "open"), _avm([]), {"k": "re", "d": None, "s": []}):
             for nn in (1, 2, 4):
@@ -1280,6 +1311,53 @@ class C15(Check):
                 for tail in ("", "b", "\n"):
                     yield {"kind": "doc", "doc": cps(d + tail), "indent": 2, "rest": cps(".")}
                 yield {"kind": "items", "items": [_td("t", [_I("s", d)], d + " z")]}
+        # token streams for parser branches that random token mutation reaches only now and then (each compared with
+        # the model): `:<`, quoted symbol, definition without supertype, bad letter-set, environment keyword errors,
+        # include errors, list not closed after a dotted end, missing final dot, unexpected top-level token
+        T = lambda *ts: {"kind": "toks", "toks": [[g, cps(t)] for g, t in ts]}
+        a_, b_, dot, defop = (24, "a"), (24, "b"), (10, "."), (7, ":=")
+        yield T(a_, (7, ":<"), b_, dot)
+        yield T(a_, defop, (5, "sym"), (11, "&"), (13, "["), (16, "]"), dot)
+        yield T(a_, defop, (13, "["), (24, "F"), (24, "x"), (16, "]"), dot)
+        yield T(a_, (8, ":+"), (13, "["), (24, "F"), (24, "x"), (16, "]"), dot)
+        yield T((20, "letter-set (a b)"))
+        yield T((20, "wild-card (?a )"))
+        yield T((25, ":begin"), (24, "x"))
+        yield T((25, ":begin"), (27, ":type"), (24, "x"))
+        yield T((25, ":begin"), (27, ":instance"), (24, "x"))
+        yield T((25, ":begin"), (27, ":instance"), (28, ":status"), (24, "r"), (24, "x"))
+        yield T((25, ":begin"), (27, ":instance"), dot, (26, ":end"), (27, ":type"), dot)
+        yield T((25, ":begin"), (27, ":type"), dot, (26, ":end"), (27, ":instance"), dot)
+        yield T((25, ":begin"), (27, ":type"), dot, (26, ":end"), (27, ":type"), (24, "x"))
+        yield T((26, ":end"), (27, ":type"), dot)
+        yield T((29, ":include"), (24, "x"), dot)
+        yield T((29, ":include"), (4, "f"), (24, "x"))
+        yield T(a_, defop, b_, (11, "&"), (15, "<"), a_, dot, b_, (24, "c"), (18, ">"), dot)
+        yield T(a_, defop, b_, (11, "&"), (15, "<"), a_, (24, "c"), (18, ">"), dot)
+        yield T(a_, defop, b_, (11, "&"), (14, "<!"), a_, (12, ","), (9, "..."), (17, "!>"), dot)
+        yield T(a_, defop, b_, (11, "&"), (15, "<"), (9, "..."), a_, (18, ">"), dot)
+        yield T(a_, defop, b_, (1, "doc"), (24, "c"))
+        yield T(a_, defop, b_, (24, "c"))
+        yield T(a_, b_)
+        yield T(dot)
+        yield T(a_, defop, b_, (11, "&"), (13, "["), (24, "F"), dot, (4, "s"), (16, "]"), dot)
+        yield T(a_, defop, b_, (11, "&"), (13, "["), (4, "F"), (16, "]"), dot)
+        yield T(a_, defop, b_, (11, "&"), (13, "["), (24, "F"), a_, (24, "G"), (16, "]"), dot)
+        # the public API around the modelled core (oracle only): format() of terms and conjunctions at an indentation,
+        # & / add / get / [] / del / in / string / supertypes / documentation / len, constructor defaults and errors
+        for i_ in range(12):
+            yield {"kind": "api", "terms": [gen_term(rng, 2, 0.2) for _ in range(3)], "indent": [0, 1, 2, 3, 5, 8][i_ % 6]}
+        # util.LookaheadIterator against a plain list (oracle only): next / peek with and without skip and drop, buffer
+        # sizes 1..5 so that every refill position is crossed
+        for i_ in range(60):
+            data = [rng.choice([2, 3, 24, 24, 10, 11]) for _ in range(rng.choice([0, 1, 2, 3, 5, 8, 13]))]
+            ops = []
+            for _ in range(rng.choice([1, 3, 6, 10])):
+                if rng.random() < 0.45:
+                    ops.append(["next", rng.random() < 0.5])
+                else:
+                    ops.append(["peek", rng.choice([0, 0, 1, 1, 2, 3]), rng.random() < 0.6, rng.random() < 0.5])
+            yield {"kind": "look", "n": 1 + i_ % 5, "data": data, "ops": ops}
         # long files: every later token swept against the 1024-token buffer boundaries of LookaheadIterator
         for target in ((1024, 2048, 4096) if tier == "quick" else (1024, 2048, 4096, 8192)):
             mixes = LONG_MIXES if target <= 2048 else LONG_MIXES[: 2 + (target == 4096)]
@@ -1309,6 +1387,17 @@ class C15(Check):
         return [{"k": "lcomment", "s": cps(" c%d" % j)} for j in range(case["k"])] + items
 
     MODEL_LONG_MAX = 2048
+
+    @staticmethod
+    def long_text_compared(case):
+        """the interpreted driver needs ~0.1 s for the text of a long file: compared for every 8th alignment only
+        (layout does not depend on the alignment; tokens, parsed items and expanded features are compared for all)"""
+        return case["k"] % 8 == 0
+
+    def model_expected(self, case, impl_res):
+        if case["kind"] == "long" and isinstance(impl_res, dict) and not self.long_text_compared(case):
+            return {k: v for k, v in impl_res.items() if k not in ("text", "text2")}
+        return impl_res
 
     def random_cases(self, rng, n, depth, kinds=None):
         for _ in range(n):
@@ -1397,12 +1486,14 @@ class C15(Check):
             except EXC as e:
                 return {"construct": exc_name(e)}, None
             out["orig"] = d_flat(objs)
+            before = d_flat(objs, s_doc)
             try:
                 text1 = fmt_all(objs)
             except EXC as e:
                 out["fmt"] = {"err": exc_name(e)}
                 return out, {"objs": objs}
-            aux = {"objs": objs, "text1": text1}
+            aux = {"objs": objs, "text1": text1, "changed_by_format": d_flat(objs, s_doc) != before}
+            out["text"] = cps(text1)
             try:
                 out["toks"] = d_toks(text1)
             except EXC as e:
@@ -1413,21 +1504,46 @@ class C15(Check):
             try:
                 events = list(tdl.iterparse(fn))
             except EXC as e:
-                out["parsed"] = out["toks2"] = out["expand2"] = {"err": exc_name(e)}
+                out["parsed"] = out["toks2"] = out["expand2"] = out["text2"] = {"err": exc_name(e)}
                 out["expand"] = [d_expand(o) for o in self.flat_objs(objs)]
                 return out, aux
             aux["events"] = events
             out["parsed"] = d_events(events)
+            if len(text1) < self.VARIANT_MAX:
+                aux["variants"] = self.text_variants(text1)
             out["expand"] = [d_expand(o) for o in self.flat_objs(objs)]
-            out["expand2"] = [d_expand(o, rdoc) if ev not in ("BeginEnvironment", "EndEnvironment") else None
+            out["expand2"] = [d_expand(o, s_doc) if ev not in ("BeginEnvironment", "EndEnvironment") else None
                               for ev, o, _ in events]
             try:
                 text2 = fmt_all(rebuild_from_events(events))
                 aux["text2"] = text2
+                out["text2"] = cps(text2)
                 out["toks2"] = d_toks(text2)
             except EXC as e:
-                out["toks2"] = {"err": exc_name(e)}
+                out["toks2"] = out["text2"] = {"err": exc_name(e)}
             return out, aux
+
+    VARIANT_MAX = 6000
+
+    def text_variants(self, text1):
+        """the same text as other files: without the final newline (what `f.write(tdl.format(x))` leaves), with CRLF
+        line ends, with blank lines around it, in another encoding (option `encoding` of iterparse, path given as a
+        Path object); each parsed by the public entry point; returns [(name, dump of the events | error name)]"""
+        body = text1[:-1] if text1.endswith("\n") else text1
+        variants = [("no-final-newline", body.encode("utf-8"), "utf-8"),
+                    ("crlf", text1.replace("\n", "\r\n").encode("utf-8"), "utf-8"),
+                    ("blank-lines-around", ("\n\n" + text1 + "\n  \n\n").encode("utf-8"), "utf-8"),
+                    ("utf-16", text1.encode("utf-16"), "utf-16")]
+        out = []
+        for name, data, enc in variants:
+            fn = Path(self.tmp) / ("v-%s.tdl" % name)
+            fn.write_bytes(data)
+            try:
+                out.append((name, d_events(list(tdl.iterparse(fn, encoding=enc) if enc != "utf-8"
+                                                 else tdl.iterparse(fn)))))
+            except EXC as e:
+                out.append((name, {"err": exc_name(e)}))
+        return out
 
     @staticmethod
     def flat_objs(objs):
@@ -1464,6 +1580,10 @@ class C15(Check):
                     return d_events(events)
                 except EXC as e:
                     return {"err": exc_name(e)}
+        if k == "api":
+            return self.run_api(case)
+        if k == "look":
+            return self.run_look(case)
         if k == "doc":
             try:
                 c = tdl._format_docstring(uncps(case["doc"]), case["indent"])[3:-3]
@@ -1504,6 +1624,170 @@ class C15(Check):
             return out
         raise ValueError(k)
 
+    # ---- public API battery (oracle only)
+    def run_api(self, case):
+        """observations of the real API; every entry is [name, observed, expected] with the expectation restated
+        naively from the documentation of the method"""
+        obs = []
+
+        def ob(name, f, want):
+            try:
+                with warnings.catch_warnings():
+                    warnings.simplefilter("ignore")
+                    got = f()
+            except (AttributeError, StopIteration) + EXC as e:
+                got = "raises " + exc_name(e)
+            obs.append([name, got if isinstance(got, (str, int, bool, list, type(None))) else repr(got), want])
+        k = case["indent"]
+        try:
+            T = [b_term(t) for t in case["terms"]]
+        except (_Exotic,) + EXC:
+            return {"obs": []}
+        specs = [json.dumps(s_term(t)) for t in T]
+        sp = lambda v: json.dumps(s_val(v))
+        fn = os.path.join(self.tmp, "api.tdl")
+
+        def reparse(text):
+            with open(fn, "w", encoding="utf-8") as f:
+                f.write(text)
+            evs = list(tdl.iterparse(fn))
+            return evs[0][1]
+        # format(term, indent) / format(conjunction, indent): read back inside an addendum
+        for i, t in enumerate(T):
+            ob("format(term,%d) parses back" % k,
+               lambda: same_val(tdl.Conjunction([t]), reparse("t :+ " + tdl.format(t, k) + ".\n").conjunction, "t"), None)
+            ob("format(term,%d) twice" % k, lambda: tdl.format(t, k) == tdl.format(t, k), True)
+            ob("format(parsed term,%d) same text" % k, lambda: tdl.format(
+                reparse(" " * k + "t :+\n" + " " * k + tdl.format(t, k) + ".\n").conjunction.terms[0], k) == tdl.format(t, k)
+                or has_triv_conj(tdl.Conjunction([t])), True)
+        conj = tdl.Conjunction(T)
+        ob("format(conjunction,%d) parses back" % k,
+           lambda: same_val(conj, reparse("t :+ " + tdl.format(conj, k) + ".\n").conjunction, "c"), None)
+        ob("format(empty conjunction)", lambda: tdl.format(tdl.Conjunction()), "")
+        ob("format(non-TDL object)", lambda: tdl.format(object()), "raises ValueError")
+        ob("format(bare Term)", lambda: tdl.format(tdl.Term()), "raises TDLError")
+        ob("_format_docstring(None)", lambda: tdl._format_docstring(None, k), "")
+        # & and add
+        ob("term & term", lambda: [json.dumps(s_term(x)) for x in (T[0] & T[1]).terms], specs[:2])
+        ob("term & conj", lambda: [json.dumps(s_term(x)) for x in (T[0] & tdl.Conjunction(T[1:])).terms], specs)
+        ob("conj & term", lambda: [json.dumps(s_term(x)) for x in (tdl.Conjunction(T[:2]) & T[2]).terms], specs)
+        ob("conj & conj", lambda: [json.dumps(s_term(x)) for x in (tdl.Conjunction(T[:1]) & tdl.Conjunction(T[1:])).terms], specs)
+        ob("term & 5", lambda: T[0] & 5, "raises TypeError")
+        ob("conj & 5", lambda: tdl.Conjunction(T) & 5, "raises TypeError")
+        ob("conj.add(5)", lambda: tdl.Conjunction(T).add(5), "raises TypeError")
+        ob("& leaves operands alone", lambda: [json.dumps(s_term(x)) for x in T], specs)
+        ob("Conjunction([t]) == t", lambda: tdl.Conjunction([tdl.TypeIdentifier("a")]) == tdl.TypeIdentifier("A"), True)
+        ob("Conjunction == Conjunction", lambda: tdl.Conjunction([tdl.String("a")]) == tdl.Conjunction([tdl.String("a")]), True)
+        ob("Conjunction == 5", lambda: tdl.Conjunction([tdl.String("a")]) == 5, False)
+        ob("TypeIdentifier == str in other case", lambda: tdl.TypeIdentifier("Ab") == "aB", True)
+        ob("TypeIdentifier != str in other case", lambda: tdl.TypeIdentifier("Ab") != "aB", False)
+        ob("TypeIdentifier == String", lambda: tdl.TypeIdentifier("a") == tdl.String("a"), False)
+        ob("TypeIdentifier != String", lambda: tdl.TypeIdentifier("a") != tdl.String("a"), True)
+        ob("String == String", lambda: [tdl.String("a") == tdl.String("a"), tdl.String("a") == tdl.String("A"),
+                                        tdl.String("a") != tdl.String("A"), tdl.String("a") == tdl.Regex("a"),
+                                        tdl.String("a") != tdl.Regex("a")], [True, False, True, False, True])
+        # item access through a conjunction with two AVMs
+        x, y, z = tdl.TypeIdentifier("x"), tdl.TypeIdentifier("y"), tdl.String("z")
+        c2 = tdl.Conjunction([x, tdl.AVM([("A.B", y)]), z, tdl.AVM([("A.B", z), ("C", x)])])
+        ob("conj[two AVMs]", lambda: [json.dumps(s_term(t_)) for t_ in c2["a.b"].terms], [json.dumps(s_term(y)), json.dumps(s_term(z))])
+        ob("conj[one AVM] is the value", lambda: c2["c"] is x, True)
+        ob("conj[missing]", lambda: c2["D"], "raises KeyError")
+        ob("conj.get(missing)", lambda: c2.get("D", 7), 7)
+        ob("conj.get(missing dotted)", lambda: c2.get("a.q"), None)
+        ob("missing in conj", lambda: ["D" in c2, "a.q" in c2, "a.b" in c2, "c.d" in c2], [False, False, True, False])
+        ob("del conj[missing]", lambda: c2.__delitem__("D"), "raises KeyError")
+        ob("conj.string()", lambda: [c2.string(), tdl.Conjunction([x]).string()], ["z", None])
+        ob("conj.types()", lambda: [str(t_) for t_ in c2.types()], ["x", "z"])
+        td = tdl.TypeDefinition("t", tdl.Conjunction([tdl.TypeIdentifier("x", docstring="dx"), tdl.AVM([("A", y)], docstring="da")]),
+                                docstring="dt")
+        ob("supertypes", lambda: [str(t_) for t_ in td.supertypes], ["x"])
+        ob("documentation", lambda: [td.documentation(), td.documentation("TOP"),
+                                     tdl.TypeDefinition("t", tdl.Conjunction([x])).documentation(),
+                                     tdl.TypeDefinition("t", tdl.Conjunction([x]), docstring="q").documentation("first")],
+           ["dx", ["dx", "da", "dt"], None, "q"])
+        ob("del td[last] then in", lambda: (td.__delitem__("a"), "A" in td)[1], False)
+        # lists
+        ob("ConsList() is the open empty list", lambda: [tdl.format(tdl.ConsList()), len(tdl.ConsList()),
+                                                         tdl.ConsList().terminated, tdl.ConsList().values()], ["< ... >", 0, False, []])
+        ob("len(ConsList)", lambda: [len(tdl.ConsList(T, end=tdl.EMPTY_LIST_TYPE)), len(tdl.ConsList(T)),
+                                     len(tdl.ConsList(T, end=tdl.Coreference("r"))), len(tdl.DiffList(T)), len(tdl.DiffList())],
+           [3, 3, 4, 3, 0])
+        cl = tdl.ConsList(T, end=tdl.EMPTY_LIST_TYPE)
+        ob("terminate a closed list", lambda: cl.terminate(tdl.LIST_TYPE), "raises TDLError")
+        ob("append to a closed list", lambda: cl.append(x), "raises TDLError")
+        ob("closed list unchanged by the failed calls", lambda: [tdl.format(cl) == tdl.format(tdl.ConsList(T, end=tdl.EMPTY_LIST_TYPE)),
+                                                                  len(cl.values())], [True, 3])
+        ob("empty list with a dotted end", lambda: tdl.ConsList([], end=tdl.Coreference("r")), "raises TDLError")
+        ob("Coreference(None)", lambda: [str(tdl.Coreference(None)), tdl.format(tdl.Coreference(None))], ["", "#"])
+        # AVM value type check leaves the AVM unchanged
+        avm = tdl.AVM([("A", x)])
+        ob("AVM[...] = 'str'", lambda: avm.__setitem__("B.C", "str"), "raises TypeError")
+        ob("AVM unchanged by the failed assignment", lambda: [tdl.format(avm), "B" in avm], ["[ A x ]", False])
+        ob("AVM[...] = None", lambda: (avm.__setitem__("N", None), avm["n"])[1], None)
+        ob("FeatureStructure ==", lambda: [tfs.FeatureStructure([("A.B", 1)]) == tfs.FeatureStructure({"a": tfs.FeatureStructure([("b", 1)])}),
+                                           tfs.FeatureStructure([("A", 1)]) == tfs.FeatureStructure([("A", 2)]),
+                                           tfs.FeatureStructure() == 5], [True, False, False])
+        # addendum without conjunction argument
+        ob("TypeAddendum(id, docstring=...)", lambda: same_obj(tdl.TypeAddendum("a", docstring="d"),
+                                                               reparse(tdl.format(tdl.TypeAddendum("a", docstring="d")) + "\n")), None)
+        # errors of the public entry point carry the file name
+        def err_filename(text):
+            try:
+                reparse(text)
+            except tdl.TDLSyntaxError as e:
+                return os.path.basename(str(e.filename))
+            return "no error"
+        ob("syntax error names the file", lambda: [err_filename("a := [ F x ].\n"), err_filename("a := b"), err_filename("a := b & ].")],
+           ["api.tdl"] * 3)
+        ob("normalize on a conjunction holding a bare Term", lambda: tdl.Conjunction([tdl.Term()]).normalize(), "raises TDLError")
+        ob("excessively nested text", lambda: reparse("a := b & " + "[ A " * 600 + "x" + " ]" * 600 + ".\n"), "raises TDLError")
+        ob(":< is read as :=", lambda: same_obj(reparse("a :< b & [ F x ].\n"), reparse("a := b & [ F x ].\n")), None)
+        ob("'sym is read as sym", lambda: same_obj(reparse("a := 'b & [ F 'x ].\n"), reparse("a := b & [ F x ].\n")), None)
+        return {"obs": obs}
+
+    def run_look(self, case):
+        """util.LookaheadIterator and a plain list side by side; the history stops at the first StopIteration (what is
+        left in the buffer after a failed peek is not part of any contract)"""
+        skip = lambda d: 2 <= d[0] <= 3
+        data = [(g, i) for i, g in enumerate(case["data"])]
+        it = util.LookaheadIterator(iter(list(data)), n=case["n"])
+        rest = list(data)
+        out = []
+        for op in case["ops"]:
+            if op[0] == "next":
+                if op[1]:
+                    while rest and skip(rest[0]):
+                        rest.pop(0)
+                want = list(rest.pop(0)) if rest else "StopIteration"
+                try:
+                    got = list(it.next(skip=skip if op[1] else None))
+                except StopIteration:
+                    got = "StopIteration"
+            else:
+                _, n, sk, drop = op
+                if not sk:
+                    # (beyond the end of a non-empty rest the code raises IndexError, not StopIteration: a quirk of a
+                    # call form that tdl.py never uses - it always peeks with skip - so it is mirrored, not judged)
+                    want = list(rest[n]) if n < len(rest) else "IndexError" if rest else "StopIteration"
+                else:
+                    idx = [i for i, d in enumerate(rest) if not skip(d)]
+                    if n < len(idx):
+                        want = list(rest[idx[n]])
+                        if drop:
+                            rest = [d for i, d in enumerate(rest) if i > idx[n] or not skip(d)]
+                    else:
+                        want = "StopIteration"
+                try:
+                    got = list(it.peek(n=n, skip=skip if sk else None, drop=drop))
+                except StopIteration:
+                    got = "StopIteration"
+                except IndexError:
+                    got = "IndexError"
+            out.append([op, got, want])
+            if isinstance(got, str) or isinstance(want, str):
+                break
+        return {"steps": out}
+
     @staticmethod
     def real_scan(close, text):
         """tdl._bounded on `text` (the opening delimiter already consumed)"""
@@ -1527,7 +1811,7 @@ class C15(Check):
             if case["target"] > self.MODEL_LONG_MAX:
                 self.no_request += 1
                 return None
-            return {"op": "items", "items": self.long_items(case)}
+            return {"op": "items", "items": self.long_items(case), "text": self.long_text_compared(case)}
         if k == "toks":
             return {"op": "toks", "toks": case["toks"]}
         if k == "doc":
@@ -1668,12 +1952,40 @@ class C15(Check):
                             for n_, (fp, v) in enumerate(t.features()):
                                 for q in (fp.lower(), fp.upper(), rand_case(i * 31 + n_, fp)):
                                     try:
-                                        ok = t[q] is v
+                                        ok = t[q] is v and t.get(q) is v and q in t
                                     except EXC:
                                         ok = False
                                     if not ok:
                                         fail("a stored value is not retrieved by its path in another letter case",
                                              repr((fp, q)))
+                        # ... and through the definition / its Conjunction when the body has exactly one AVM term
+                        avms = [t for t in b.conjunction.terms if isinstance(t, tdl.AVM)]
+                        if len(avms) == 1 and type(avms[0]) is tdl.AVM:
+                            for n_, (fp, v) in enumerate(avms[0].features()):
+                                q = rand_case(i * 17 + n_, fp)
+                                try:
+                                    ok = (v is None or (b[q] is v and b.conjunction[q] is v and b.conjunction.get(q) is v)) \
+                                        and q in b and q in b.conjunction
+                                except EXC:
+                                    ok = False
+                                if not ok:
+                                    fail("a stored value is not retrieved by its path in another letter case",
+                                         "through the definition: " + repr((fp, q)))
+            # the same text as a file without final newline / with CRLF / with blank lines around / in UTF-16
+            for name, dump in aux.get("variants", []):
+                if dump != res.get("parsed"):
+                    fail("the same text read from a file variant parses differently", "%s: %s" % (name, repr(dump)[:300]))
+            if aux.get("changed_by_format"):
+                fail("formatting changes the object that is formatted", repr(text1)[:300])
+            # formatting does not change the object: the same objects give the same text again
+            try:
+                with warnings.catch_warnings():
+                    warnings.simplefilter("ignore")
+                    again = fmt_all(objs)
+                if again != text1:
+                    fail("formatting the same objects a second time gives a different text", repr((text1, again))[:600])
+            except EXC as e:
+                fail("formatting the same objects a second time gives a different text", "raises " + exc_name(e))
             # environments as parsed objects: entries (without comments) format to the same block
             wo = b_tree(case["items"], with_comments=False)
             penvs = [o for ev, o, _ in events if ev == "BeginEnvironment"]
@@ -1709,6 +2021,14 @@ class C15(Check):
                         if tdl.format(a) != tdl.format(b):
                             fail("formatting one parsed entity gives a different text",
                                  repr((tdl.format(a), tdl.format(b)))[:600])
+        elif k == "api":
+            for name, got, want in res["obs"]:
+                if got != want:
+                    fail("public API around the TDL objects: " + name, repr((got, want))[:400])
+        elif k == "look":
+            for op, got, want in res["steps"]:
+                if got != want:
+                    fail("LookaheadIterator differs from a plain list", repr((case["n"], case["data"], op, got, want)))
         elif k == "doc":
             if "err" in (res["fmt"] if isinstance(res["fmt"], dict) else {}):
                 fail("format raises on a TDL entity", "docstring " + repr(uncps(case["doc"])))
@@ -1767,7 +2087,8 @@ class C15(Check):
                     v = b_val(case["val"])
                     avm[".".join(uncps(c) for c in case["set"])] = v
                     try:
-                        ok = avm[".".join(uncps(c) for c in case["get"])] is v
+                        gp = ".".join(uncps(c) for c in case["get"])
+                        ok = avm[gp] is v and avm.get(gp) is v and gp in avm
                     except EXC:
                         ok = False
                     if not ok:
@@ -1825,6 +2146,8 @@ class C15(Check):
             if aux and "events" in aux:
                 inc("long-entities", len(aux["events"]))
             return
+        if k == "items" and case.get("width"):
+            inc("width-boundary-cases")
         if k == "items" and case.get("hist"):
             inc("history-cases")
             for op in re.findall(r'\["(set|del|normalize|append|terminate|add|and)"', json.dumps(case["items"])):
@@ -1846,6 +2169,11 @@ class C15(Check):
                     if j["k"] == "avm":
                         for p, _ in j["f"]:
                             inc("path-len:%d" % len(p))
+                        names = [".".join(uncps(c_) for c_ in p).upper() for p, _ in j["f"]]
+                        if names and len(set(names)) == len(names) and sum(len(p) for p in names) % 3 == 0:
+                            inc("avm-built-from-mapping")
+                    if j["k"] in ("cons", "diff") and len(j["v"]) >= 16:
+                        inc("list-len>=16")
                     c["max-depth"] = max(c.get("max-depth", 0), depth)
                     for v in j.values():
                         walk(v, depth + 1)
@@ -1873,6 +2201,11 @@ class C15(Check):
                             inc("text-with-escaped-quote")
                     if isinstance(res.get("parsed"), dict):
                         inc("parse-error:" + res["parsed"]["err"])
+        elif k == "api":
+            inc("api-observations", len(res["obs"]))
+        elif k == "look":
+            for op, got, _ in res["steps"]:
+                inc("look-op:%s%s" % (op[0], ":stop" if got == "StopIteration" else ""))
         elif k == "toks":
             inc("toks-result:" + (res["err"] if isinstance(res, dict) else "ok"))
         elif k == "doc":
